@@ -9,6 +9,8 @@ def generate(G):
              unwind=unwind, tier=tier, heavy=heavy, stubs=stubs,
              skeleton={"program": prog, "leaves": ls, "passes": passes, "gradients_taken_before_unwrap": keep})
 
+    G.ob("c18_model_release", "C18", "model_release", "c18::model_release(s)", unwind=8, tier="quick", heavy=False,
+         skeleton={"what": "Model[Dense(1->1)]: forward, backward, caller drops the output, forward again: the first batch and target are sole owners"})
     two = [L([2]), L([2])]
     rel("mul_nopass", "Mul", two, 0, False, "quick")
     rel("mul_pass", "Mul", two, 1, False, "quick")
